@@ -19,7 +19,7 @@ fn history(rep: &mut Report, rng: &mut Rng, idx: u64) {
     };
     let roller = gen_roller(rng, false);
     let append_mode = rng.chance(2, 3);
-    let enc_kind = *rng.pick(&[0u64, 1, 4]);
+    let enc_kind = *rng.pick(&[0u64, 1, 4, 99]);
     let mut e = Engine::new(sc.path.clone(), append_mode, roller, trig, enc_kind);
     // pre-existing file of an exact size around the limit
     let pre_size = match rng.below(7) {
@@ -116,6 +116,133 @@ fn history(rep: &mut Report, rng: &mut Rng, idx: u64) {
     }
 }
 
+/// The same observation with several writer threads: the policy is consulted under the appender's lock,
+/// so the size it is shown must equal the on-disk size at that very moment.
+fn concurrent(rep: &mut Report, rng: &mut Rng, idx: u64) {
+    use crate::c04::{append_frame, take_panic};
+    use log4rs::append::Append;
+    use std::sync::{Arc, Barrier};
+    let sc = Scratch::new("c06c");
+    let limit = *rng.pick(&[0u64, 40, 200, 1024, 3000]);
+    let threads = 2 + rng.usize_below(7);
+    let per = 40 + rng.usize_below(150);
+    let roller = gen_roller(rng, false);
+    let mut e = Engine::new(sc.path.clone(), true, roller, TrigSpec::Size(limit), *rng.pick(&[1u64, 3, 99]));
+    let desc = json!({"threads": threads, "records_per_thread": per, "limit": limit, "roller": e.roller.describe()});
+    if let Err((sig, what)) = e.open() {
+        rep.violation(&format!("C06:{}", sig), json!({"run": desc, "what": what}));
+        return;
+    }
+    let app: Arc<Box<dyn Append>> = Arc::new(e.app.take().unwrap());
+    let barrier = Arc::new(Barrier::new(threads));
+    let failed = Arc::new(std::sync::atomic::AtomicU64::new(0));
+    std::thread::scope(|s| {
+        for t in 0..threads {
+            let (app, barrier, failed) = (app.clone(), barrier.clone(), failed.clone());
+            let seed = rng.next_u64();
+            s.spawn(move || {
+                let mut r = Rng::new(seed);
+                barrier.wait();
+                for seq in 0..per as u32 {
+                    let a = append_frame(&**app, t as u32 + 1, seq, *r.pick(&[0usize, 10, 30, 100, 1010]), true);
+                    let _ = take_panic();
+                    if !a.ok {
+                        failed.fetch_add(1, std::sync::atomic::Ordering::Relaxed);
+                    }
+                }
+            });
+        }
+    });
+    drop(app);
+    rep.case(&format!("{}|{}", desc, idx), true);
+    rep.count("concurrent_runs", 1);
+    if failed.load(std::sync::atomic::Ordering::Relaxed) > 0 {
+        rep.violation("C06:concurrent:append-failed", json!({"run": desc, "failed_appends": failed.load(std::sync::atomic::Ordering::Relaxed)}));
+    }
+    let decisions = e.dec_log.lock().unwrap().clone();
+    for (k, d) in decisions.iter().enumerate() {
+        rep.count("policy_consultations_observed", 1);
+        rep.count("concurrent_consultations_observed", 1);
+        match d.disk_len {
+            Some(disk) if disk == d.len_estimate => {
+                if d.result != Ok(disk > limit) {
+                    rep.violation("C06:concurrent:wrong-decision", json!({"run": desc, "consultation": k, "size": disk, "answer": format!("{:?}", d.result)}));
+                    return;
+                }
+            }
+            other => {
+                rep.violation("C06:concurrent:size-estimate-differs-from-disk", json!({"run": desc, "consultation": k,
+                    "len_estimate": d.len_estimate, "on_disk": format!("{:?}", other)}));
+                return;
+            }
+        }
+    }
+}
+
+/// A roller that sometimes fails and leaves the file in place (what a full disk or a busy archive
+/// directory does): the size shown to the policy must stay exact across the failed rotation.
+#[derive(Debug)]
+struct FlakyRoller {
+    fail_next: std::sync::Mutex<std::collections::VecDeque<bool>>,
+}
+
+impl log4rs::append::rolling_file::policy::compound::roll::Roll for FlakyRoller {
+    fn roll(&self, file: &std::path::Path) -> anyhow::Result<()> {
+        if self.fail_next.lock().unwrap().pop_front().unwrap_or(false) {
+            anyhow::bail!("scripted roller failure");
+        }
+        std::fs::remove_file(file).map_err(Into::into)
+    }
+}
+
+fn flaky(rep: &mut Report, rng: &mut Rng, idx: u64) {
+    use crate::c04::{append_frame, take_panic};
+    use log4rs::append::rolling_file::policy::compound::trigger::size::SizeTrigger;
+    let sc = Scratch::new("c06f");
+    let limit = *rng.pick(&[40u64, 100, 1024]);
+    let append_mode = rng.chance(2, 3);
+    let script: std::collections::VecDeque<bool> = (0..40).map(|_| rng.chance(1, 3)).collect();
+    let log = std::sync::Arc::new(std::sync::Mutex::new(vec![]));
+    let trig = RecTrigger { inner: Box::new(SizeTrigger::new(limit)), log: log.clone() };
+    let desc = json!({"limit": limit, "open_mode": if append_mode { "append" } else { "truncate" },
+        "roller_failures": script.iter().map(|b| if *b { 'F' } else { '.' }).collect::<String>()});
+    let app = match build_appender(&sc.path, append_mode, Box::new(crate::frames::ChunkEnc { pieces: 1 }), Box::new(trig),
+        Box::new(FlakyRoller { fail_next: std::sync::Mutex::new(script) })) {
+        Ok(a) => a,
+        Err(e) => {
+            rep.inconclusive(&format!("cannot build appender: {}", e));
+            return;
+        }
+    };
+    rep.case(&format!("{}|{}", desc, idx), true);
+    let mut errs = 0;
+    for seq in 0..(10 + rng.usize_below(40)) as u32 {
+        let a = append_frame(&app, 1, seq, *rng.pick(&[5usize, 20, 60, 200]), true);
+        if let Some(p) = take_panic() {
+            rep.violation("C06:flaky:panic", json!({"run": desc, "panic": p}));
+            return;
+        }
+        if !a.ok {
+            errs += 1;
+        }
+    }
+    rep.count("appends_that_reported_a_failed_roll", errs);
+    let decisions = log.lock().unwrap().clone();
+    for (k, d) in decisions.iter().enumerate() {
+        rep.count("policy_consultations_observed", 1);
+        rep.count("consultations_with_flaky_roller", 1);
+        if d.disk_len != Some(d.len_estimate) {
+            rep.violation("C06:size-estimate-differs-from-disk:after-failed-roll", json!({"run": desc, "consultation": k,
+                "len_estimate": d.len_estimate, "on_disk": format!("{:?}", d.disk_len)}));
+            return;
+        }
+        if d.result != Ok(d.len_estimate > limit) {
+            rep.violation("C06:flaky:wrong-decision", json!({"run": desc, "consultation": k}));
+            return;
+        }
+    }
+}
+
 pub fn run(rep: &mut Report) {
     crate::hooks::install();
     rep.rule = "histories of 3-58 operations on a rolling appender with the real SizeTrigger (limits 0,1,2, around the frame size, \
@@ -127,7 +254,17 @@ pub fn run(rep: &mut Report) {
     rep.assume("the size is observed at the Trigger boundary (a wrapper around the real SizeTrigger), i.e. exactly what the policy is shown");
     let n = if rep.tier == "thorough" { 30_000 } else { 5_000 };
     run_cases(rep, "history", n, history);
+    run_cases(rep, "flaky", if rep.tier == "thorough" { 4_000 } else { 400 }, flaky);
+    let saved = std::env::var("L4V_JOBS").ok();
+    std::env::set_var("L4V_JOBS", "3");
+    run_cases(rep, "concurrent", if rep.tier == "thorough" { 300 } else { 30 }, concurrent);
+    match saved {
+        Some(v) => std::env::set_var("L4V_JOBS", v),
+        None => std::env::remove_var("L4V_JOBS"),
+    }
     rep.require(rep.counter("policy_consultations_observed") > 5_000, "fewer than 5000 policy consultations observed");
     rep.require(rep.counter("consultations_exactly_at_the_boundary") > 50, "the size == limit / limit+1 boundary was hardly reached");
     rep.require(rep.counter("rotations_observed") > 500, "fewer than 500 rotations");
+    rep.require(rep.counter("concurrent_consultations_observed") > 1000, "too few consultations under concurrent writers");
+    rep.require(rep.counter("appends_that_reported_a_failed_roll") > 50, "too few failed rolls in the flaky-roller histories");
 }
